@@ -18,6 +18,9 @@ var rePtsW = regexp.MustCompile(`pts=\d+,w=\d+,`)
 type seqSym struct {
 	Name string   `json:"name"`
 	Args []string `json:"args"`
+	// Model, if set, lists the commands applied to the model instead of Args
+	// (scripts: the inner tile38.call commands).
+	Model [][]string `json:"model,omitempty"`
 }
 
 func (y seqSym) String() string { return strings.Join(y.Args, " ") }
@@ -46,7 +49,7 @@ func seqEnumerate(alpha []seqSym, depth int, visit func(e seqEdge, src, dst *mSt
 			srcCanon := nd.st.canon()
 			for si, sym := range alpha {
 				dst := nd.st.clone()
-				exp := mApply(dst, sym.Args)
+				exp := mApplySym(dst, sym)
 				dc := dst.canon()
 				visit(seqEdge{Path: nd.path, Sym: si, Src: srcCanon, Dst: dc, Exp: exp}, nd.st, dst)
 				if !seen[dc] {
@@ -144,4 +147,14 @@ func internalDump(s *Server) (string, []string) {
 	fmt.Fprintf(&sb, "#hooks=%d,out=%d,tree=%d,cross=%d,gh=%d,go=%d,hexp=%d", s.hooks.Len(), s.hooksOut.Len(),
 		s.hookTree.Len(), s.hookCross.Len(), s.groupHooks.Len(), s.groupObjects.Len(), s.hookExpires.Len())
 	return sb.String(), problems
+}
+
+func mApplySym(st *mState, sym seqSym) string {
+	if sym.Model == nil {
+		return mApply(st, sym.Args)
+	}
+	for _, c := range sym.Model {
+		mApply(st, c)
+	}
+	return "~any"
 }
